@@ -109,6 +109,13 @@ func cmdSQLCases(args []string) {
 			q = string(b)
 		}
 		df, _ := c["df"].(string)
+		if dc, ok := c["df_codes"].([]any); ok && len(dc) > 0 { // a default field that is not ASCII travels as byte codes
+			b := make([]byte, len(dc))
+			for i, x := range dc {
+				b[i] = byte(x.(float64))
+			}
+			df = string(b)
+		}
 		inline, param := renderBoth(q, df)
 		c["inline"], c["param"] = inline, param
 		pr := r.record(n, q, df)
